@@ -244,6 +244,8 @@ func init() {
 		[]string{"/f/{p:any}", "/f/{id:\\d+}/b", "/f/{id:\\d+}/a", "/f/{n}"},                     // 25: other order, plus a named endpoint
 		[]string{"/u", "/u/{id}/p", "/u/{id}/l"},                                                  // 26: a route node above a route-less parameter node
 		[]string{"/a", "/a/b/c", "/a/b/d", "/a/c", "/a/d", "/a/e", "/a/f", "/a/{x}/g"},            // 27: the same through the first-byte index
+		[]string{"/a/u", "/a/su", "/a/sv"},                                                        // 28: the tail of a split node equals the text of an existing sibling
+		[]string{"/p/d", "/p/{id}/d", "/p/{id}/c", "/p/{id}"},                                     // 29: the same below a parameter
 	)
 }
 
